@@ -46,10 +46,14 @@ def run(ctx):
     fn, g, where = fn_cfg(ctx, VF, "VersionedFileCommitBuilder._ensure_fallback_inventories")
     rets = [n.id for n in g.nodes if n.kind == "stmt" and isinstance(n.ast, ast.Return)]
     g_stacked = g.assume({"self.repository._fallback_repositories": True, "not self.repository._fallback_repositories": False})
-    r_missing = g_stacked.assume({"missing_keys": True})
+    from ..astutil import bound_names, one
+
+    # role binding: the locals are found by what they are bound to, not by their names
+    mk = one(bound_names(fn, lambda t, n: isinstance(n, ast.Call) and call_attr(n) == "insert_missing_keys"), "missing_keys = sink.insert_missing_keys(...)", where)
+    fr = one(bound_names(fn, lambda t, n: t.startswith("list(reversed(") and "_fallback_repositories" in t), "fallback_repos = list(reversed(..._fallback_repositories))", where)
     # with fallbacks present and keys still missing after the loop there must be no normal exit
-    loop_tests = [n.id for n in g.nodes if n.kind == "test" and norm(n.ast) == "missing_keys and fallback_repos"]
-    final_tests = [n.id for n in g.nodes if n.kind == "test" and norm(n.ast) == "missing_keys"]
+    loop_tests = [n.id for n in g.nodes if n.kind == "test" and norm(n.ast) in (f"{mk} and {fr}", f"{fr} and {mk}")]
+    final_tests = [n.id for n in g.nodes if n.kind == "test" and norm(n.ast) == mk]
     ctx.require(loop_tests and final_tests, f"{where}: refill loop / remainder test not found")
     starts = [b for t in final_tests for (b, l) in g.succ[t] if l == "T"]
     rr = g.reach(starts, include_src=True)
@@ -57,13 +61,14 @@ def run(ctx):
     ok, w = g_stacked.always_before(final_tests, [g.exit])
     ctx.check("R2-remainder-raises", where, ok, "with fallback repositories every normal exit passes the remainder test", witness=g.show_path(w) if w else None)
     k2_unreachable(ctx, "R2-pre2a-refused", where, g_stacked, {"self.repository._format.supports_chks": False}, loop_tests, "stacked pre-2a formats are refused before any refill")
-    srcs = {}
-    for s in sorted((s for s in walk_own(fn) if isinstance(s, ast.Assign) and len(s.targets) == 1), key=lambda s: -s.lineno):
-        srcs[norm(s.targets[0])] = norm(s.value)  # first (lexically earliest) assignment wins
-    ok = "self.repository.inventories._index.get_parent_map(parent_keys)" == srcs.get("parent_map") and srcs.get("parent_keys") == "[(p,) for p in self.parents]" and "not in parent_map" in srcs.get("missing_parent_keys", "") and "missing_parent_keys" in srcs.get("missing_keys", "") and "'inventories'" in srcs.get("missing_keys", "")
-    ctx.check("R2-refill-set", where, ok, "the refilled keys are the parents whose inventories the repository's own index lacks", construct=str({k: srcs.get(k) for k in ("parent_keys", "parent_map", "missing_parent_keys", "missing_keys")}), message="the set of parent inventories to refill is no longer computed against the non-fallback inventory index")
+    pk = bound_names(fn, lambda t, n: t == "[(p,) for p in self.parents]")
+    pm = bound_names(fn, lambda t, n: bool(pk) and t == f"self.repository.inventories._index.get_parent_map({pk[0]})")
+    mpk = bound_names(fn, lambda t, n: bool(pm) and f"not in {pm[0]}" in t and isinstance(n, (ast.SetComp, ast.ListComp)) and norm(n.generators[0].iter) == pk[0])
+    first_mk = [norm(s_.value) for s_ in sorted((s_ for s_ in walk_own(fn) if isinstance(s_, ast.Assign) and norm(s_.targets[0]) == mk), key=lambda s_: s_.lineno)][:1]
+    ok = bool(pk and pm and mpk and first_mk) and f"in {mpk[0]}" in first_mk[0] and "'inventories'" in first_mk[0]
+    ctx.check("R2-refill-set", where, ok, "the refilled keys are the parents whose inventories the repository's own index lacks", construct=str({"parent_keys": pk, "parent_map": pm, "missing_parent_keys": mpk, "missing_keys": first_mk}), message="the set of parent inventories to refill is no longer computed against the non-fallback inventory index")
     ins = need(where, calling(g, attr="insert_missing_keys"), "sink.insert_missing_keys(source, missing_keys)")
-    ok = all(isinstance(g.nodes[i].ast, ast.Assign) and norm(g.nodes[i].ast.targets[0]) == "missing_keys" for i in ins)
+    ok = all(isinstance(g.nodes[i].ast, ast.Assign) and norm(g.nodes[i].ast.targets[0]) == mk and any(norm(c.args[-1]) == mk for c in g.nodes[i].calls() if call_attr(c) == "insert_missing_keys") for i in ins)
     ctx.check("R2-refill-set", where, ok, "what a fallback could not supply stays in missing_keys for the next fallback / the final test")
 
     # ---- R3 -----------------------------------------------------------------
@@ -91,15 +96,23 @@ def run(ctx):
     # ---- R4 -----------------------------------------------------------------
     fn, g, where = fn_cfg(ctx, VF, "VersionedFileRepository.get_missing_parent_inventories")
     empties = [n.id for n in g.nodes if n.kind == "stmt" and isinstance(n.ast, ast.Return) and norm(n.ast.value) == "set()"]
-    full = [n.id for n in g.nodes if n.kind == "stmt" and isinstance(n.ast, ast.Return) and "'inventories'" in norm(n.ast.value)] + [n.id for n in g.nodes if n.kind == "stmt" and isinstance(n.ast, ast.Return) and norm(n.ast.value) == "missing_keys"]
+    from ..astutil import bound_names, one
+
+    # role binding
+    par = one(bound_names(fn, lambda t, n: "get_missing_parents()" in t), "parents = set(...get_missing_parents())", where)
+    un = one(bound_names(fn, lambda t, n: t in ("self.inventories._index", "self.inventories")), "unstacked_inventories = self.inventories._index", where)
+    pres = one(bound_names(fn, lambda t, n: t.startswith(f"{un}.get_parent_map(")), "present_inventories = <own index>.get_parent_map(...)", where)
+    mt = one(bound_names(fn, lambda t, n: t == "set()"), "missing_texts = set()", where)
+    report = {f"{{('inventories', rev_id) for rev_id, in {par}}}"} | set(bound_names(fn, lambda t, n: t == f"{{('inventories', rev_id) for rev_id, in {par}}}"))
+    full = [n.id for n in g.nodes if n.kind == "stmt" and isinstance(n.ast, ast.Return) and n.ast.value is not None and norm(n.ast.value) in report]
     ctx.require(len(empties) == 3 and full, f"{where}: expected 3 empty returns and the reporting returns, found {len(empties)} / {len(full)}")
-    env = {"not self._format.supports_external_lookups": False, "len(parents) == 0": False, "not missing_texts": False}
+    env = {"not self._format.supports_external_lookups": False, f"len({par}) == 0": False, f"not {par}": False, f"not {mt}": False, f"len({mt}) == 0": False}
     g2 = g.assume(env)
     hit = set(empties) & g2.reachable_from_entry()
     ctx.check("R4-missing-parents-reported", where, not hit, "with missing parent inventories (and missing texts) the result is never the empty set", message="get_missing_parent_inventories can report 'nothing missing' although parent inventories are absent")
-    ok = any(isinstance(s, ast.Assign) and norm(s.targets[0]) == "parents" and "get_missing_parents()" in norm(s.value) for s in walk_own(fn)) and any(call_attr(c) == "difference_update" and call_recv(c) == "parents" and norm(c.args[0]) == "present_inventories" for c in calls_in(fn))
+    ok = any(call_attr(c) == "difference_update" and call_recv(c) == par and norm(c.args[0]) == pres for c in calls_in(fn))
     ctx.check("R4-missing-parents-reported", where, ok, "candidates are the revisions' missing parents minus the inventories present without fallbacks")
-    pi = [s for s in walk_own(fn) if isinstance(s, ast.Assign) and norm(s.targets[0]) == "unstacked_inventories"]
+    pi = [s_ for s_ in walk_own(fn) if isinstance(s_, ast.Assign) and norm(s_.targets[0]) == un]
     ctx.check("R4-missing-parents-reported", where, len(pi) == 1 and norm(pi[0].value) == "self.inventories._index", "presence is tested against the unstacked (own) inventory index")
 
 
